@@ -12,7 +12,7 @@ EXTENDS GoSem
 ASSUME TLCSet(1, {})
 
 Collect ==
-    \A e \in ev :
+    \A e \in ev \cup sh :
         IF \E r \in TLCGet(1) : r.p = p /\ r.ev = e THEN TRUE
         ELSE TLCSet(1, TLCGet(1) \cup {[p |-> p, ev |-> e, dec |-> dec, sched |-> sched]})
 
